@@ -107,8 +107,9 @@ def main():
         except (OSError, ValueError):
             pass
         meta["history"] = hist
-        shutil.rmtree(dst, ignore_errors=True)
-        shutil.copytree(seed, dst)
+        if os.path.realpath(seed) != os.path.realpath(dst):     # re-evaluating a stored seed in place: keep its files
+            shutil.rmtree(dst, ignore_errors=True)
+            shutil.copytree(seed, dst)
         meta["evaluation"] = rec
         meta["what_was_run"] = ("tools/seed_eval.py: demo on pristine worktree (must pass), patch applied, demo (must fail), "
                                 "`cargo test --workspace --offline` on the patched tree (must pass), then `VERIF_REPO=<patched "
